@@ -16,6 +16,8 @@ Files of an earlier run: the paths listed in `stale` exist before the run and ho
 Records: distinct positive integers, one line each; x = 0 is an EMPTY record (writes nothing, the file must still exist).
 With `paired` (fqrand only) FastqHandle.write gets (R1, R2): mate 2 goes to path id p + 500 with payload x + 100000; every inner
 HandleLimiter.write call is recorded as its own observation (the bound method is wrapped by the driver).
+Watchdog: a write() that makes more than 8 open() attempts is aborted by the wrapper (BaseException) and recorded as raised="Hang".
+Target paths are spelled plainly, with a doubled slash or with a `/./` component (field `spelling` 0/1/2).
 Event "run":  {ev, tid, src: gen|fq|rand|fqrand, method, K, mh, pe, bad, tfs, stale, paired,
                ops:[{op:"w"|"c", p, x, raised, att:[{p, append, nopen, ok}], open:[paths with an OS descriptor],
                      tracked:[paths with a handle in openHandles]}],
@@ -38,6 +40,14 @@ import bamgen
 
 REAL_OPEN = open
 REAL_GZIP_OPEN = gzip.open
+
+
+class WriteHang(BaseException):
+    """Raised by the injected open() when one write() call keeps re-trying: the call does not end (watchdog).
+    A BaseException, so that the `except Exception` of the code under test cannot swallow it."""
+
+
+MAX_ATTEMPTS_PER_CALL = 8      # the design makes at most 2 open() attempts per write()
 
 
 class Proxy:
@@ -68,6 +78,8 @@ class Injector:
         self.att = []           # attempts of the current call
 
     def _open(self, real_open, path, mode, *a, **k):
+        if len(self.att) >= MAX_ATTEMPTS_PER_CALL:
+            raise WriteHang()
         self.attempt += 1
         rec = {'p': self.path_id(path), 'append': 'a' in mode, 'nopen': len(self.live), 'ok': False}
         self.att.append(rec)
@@ -209,7 +221,11 @@ def run_scenario(hl_mod, fh_mod, workdir, scn, src, method, det_clock):
         shutil.rmtree(workdir)
     os.makedirs(workdir)
     via_fq = src.startswith('fq')
-    prefix = os.path.join(workdir, 'o')
+    # target paths as callers really spell them: plain, with a doubled slash (demux.py builds `out//lib/...` for `-o out/`)
+    # or with a `/./` component; the same spelling is used for every write to a file
+    spelling = (scn['K'] + scn['pe'] + len(scn['ops'])) % 3
+    wdir = workdir + ('', '/', '/.')[spelling]
+    prefix = wdir + '/o'
 
     # cell identifiers as the demultiplexer stores them: integer barcode indices starting at 0 (falsy but valid) in the
     # replayed TLC behaviours and half of the random runs, strings otherwise; MX is the integer 0 in some runs
@@ -228,20 +244,20 @@ def run_scenario(hl_mod, fh_mod, workdir, scn, src, method, det_clock):
             return '%s.%s.%s.R2.fastq.gz' % (prefix, cell_of(p - 500), mx)
         if via_fq:
             return '%s.%s.%s.R1.fastq.gz' % (prefix, cell_of(p), mx)
-        return os.path.join(workdir, 'f%d.%s' % (p, 'gz' if method == 1 else 'txt'))
+        return wdir + '/' + 'f%d.%s' % (p, 'gz' if method == 1 else 'txt')
 
     ids = {}
 
     def path_id(path):
-        return ids.get(path, 0)
+        return ids.get(os.path.basename(path), 0)
 
     for p in set(o['p'] for o in scn['ops'] if o['op'] == 'w') | ({scn['bad']} if scn['bad'] else set()) | set(scn.get('stale', [])):
-        ids[path_of(p)] = p
+        ids[os.path.basename(path_of(p))] = p
         if paired and p <= 500:
-            ids[path_of(p + 500)] = p + 500
+            ids[os.path.basename(path_of(p + 500))] = p + 500
     if paired:
-        ids[path_of(998)] = 998
-        ids[path_of(999)] = 999
+        ids[os.path.basename(path_of(998))] = 998
+        ids[os.path.basename(path_of(999))] = 999
     cells = sorted(set(o['p'] for o in scn['ops'] if o['op'] == 'w')) or [1]
     intended = {}        # payload -> path id of the file the record BELONGS to (the cell of the record itself)
     # files of an "earlier run" that already exist at some target paths: one stale record 0
@@ -282,6 +298,9 @@ def run_scenario(hl_mod, fh_mod, workdir, scn, src, method, det_clock):
             pid = intended.get(x, path_id(path))
             try:
                 inner_write(path, string, method=method, forceAppend=forceAppend)
+            except WriteHang:
+                observe('w', pid, x, 'Hang')
+                raise
             except Exception as ex:
                 observe('w', pid, x, type(ex).__name__)
                 raise
@@ -317,6 +336,8 @@ def run_scenario(hl_mod, fh_mod, workdir, scn, src, method, det_clock):
                         lim.write(path_of(o['p']), '%d\n' % o['x'] if o['x'] else '', method=method)
                 else:
                     (fh or lim).close()
+        except WriteHang:                            # the call kept re-trying open(): it does not end
+            raised = 'Hang'
         except Exception as ex:                      # an exception of the code under test is an observation
             raised = type(ex).__name__
         if via_fq and o['op'] == 'w':
@@ -502,7 +523,8 @@ def main():
         def header(scn, src, method):
             return {'ev': 'run', 'tid': tid, 'src': src, 'method': method, 'K': scn['K'], 'mh': scn['mh'], 'pe': scn['pe'],
                     'bad': scn['bad'], 'tfs': sorted(scn['tfs']), 'stale': sorted(scn.get('stale', [])),
-                    'paired': bool(scn.get('paired')) and src.startswith('fq')}
+                    'paired': bool(scn.get('paired')) and src.startswith('fq'),
+                    'spelling': (scn['K'] + scn['pe'] + len(scn['ops'])) % 3}
 
         # 1. TLC-generated behaviours of the design (spec -> code)
         scns = json.load(REAL_OPEN(scn_file)) if scn_file else []
